@@ -411,3 +411,204 @@ pub fn classes(m: &Model) -> Vec<String> {
     }
     c.into_iter().collect()
 }
+
+// ---------------------------------------------------------------------------------------------
+// property-specific generators
+
+/// C08: one or two cumulative constraints with side constraints. `extended` = everything the API
+/// accepts (zero durations / usages, usage > capacity, negative starts, scaled views, repeated
+/// variables); otherwise the canonical regime.
+pub fn gen_c08(r: &mut SmallRng, extended: bool) -> Model {
+    loop {
+        let mut p = Profile::mixed();
+        p.nint = (2, 5);
+        p.nbool = (0, 1);
+        p.width = 5;
+        p.lo = if extended { (-2, 2) } else { (0, 3) };
+        p.sparse_p = 0.25;
+        let mut m = gen_vars(r, &p);
+        if m.space() > 30_000.0 {
+            continue;
+        }
+        let ncum = if r.gen_range(0..4) == 0 { 2 } else { 1 };
+        for _ in 0..ncum {
+            if let Some(c) = gen_con(r, &m, if extended { "cumulative" } else { "cumulativec" }, true) {
+                let has_bool = m.vars.iter().any(|v| v.kind == VarKind::Bool);
+                let reif = if has_bool && extended && r.gen_range(0..6) == 0 { gen_reif(r, &m, &c, 1.0) } else { Reif::Plain };
+                m.cons.push((c, reif));
+            }
+        }
+        if m.cons.is_empty() {
+            continue;
+        }
+        for _ in 0..r.gen_range(0..3) {
+            let k = ["bin_le", "bin_lt", "lin_le", "bin_ne", "lin_ne"][r.gen_range(0..5)];
+            if let Some(c) = gen_con(r, &m, k, true) {
+                m.cons.push((c, Reif::Plain));
+            }
+        }
+        return m;
+    }
+}
+
+/// C09: one (half-)reified or negated constraint of a given kind, optionally with the literal
+/// decided before the constraint is posted, plus side constraints.
+pub fn gen_c09(r: &mut SmallRng, kind: &str) -> (Model, &'static str) {
+    loop {
+        let mut p = Profile::mixed();
+        p.nbool = (1, 2);
+        p.nint = (2, 4);
+        let mut m = gen_vars(r, &p);
+        if m.space() > 20_000.0 {
+            continue;
+        }
+        let Some(c) = gen_con(r, &m, kind, true) else { continue };
+        let bools: Vec<usize> = (0..m.vars.len()).filter(|&i| m.vars[i].kind == VarKind::Bool).collect();
+        let l = (bools[r.gen_range(0..bools.len())], r.gen_bool(0.7));
+        let reif = if c.negatable() {
+            match r.gen_range(0..5) {
+                0 | 1 => Reif::Implied(l),
+                2 | 3 => Reif::Reified(l),
+                _ => Reif::Negated,
+            }
+        } else {
+            Reif::Implied(l)
+        };
+        let state = match r.gen_range(0..3) {
+            0 => "free",
+            1 => "true",
+            _ => "false",
+        };
+        if !matches!(reif, Reif::Negated) {
+            match state {
+                "true" => m.cons.push((Con::Clause(vec![l]), Reif::Plain)),
+                "false" => m.cons.push((Con::Clause(vec![(l.0, !l.1)]), Reif::Plain)),
+                _ => {}
+            }
+        }
+        m.cons.push((c, reif));
+        for _ in 0..r.gen_range(0..3) {
+            let k = ["lin_le", "lin_ne", "bin_ne", "clause", "lin_eq"][r.gen_range(0..5)];
+            if let Some(c) = gen_con(r, &m, k, true) {
+                m.cons.push((c, Reif::Plain));
+            }
+        }
+        return (m, state);
+    }
+}
+
+/// C02 / C07: models near the phase transition that produce conflicts.
+pub fn gen_hard(r: &mut SmallRng) -> Model {
+    let mut p = Profile::mixed();
+    p.nint = (3, 6);
+    p.nbool = (0, 2);
+    p.ncons = (3, 8);
+    p.width = 4;
+    p.max_space = 60_000.0;
+    match r.gen_range(0..4) {
+        0 => {
+            // pigeonhole-like: all different over a tight range plus linear side constraints
+            p.kinds = vec![("all_different", 3), ("lin_le", 2), ("lin_eq", 2), ("lin_ne", 2), ("bin_lt", 1)];
+            p.sparse_p = 0.1;
+        }
+        1 => {
+            // parity-like over 0-1 variables
+            p.nint = (1, 2);
+            p.nbool = (4, 8);
+            p.kinds = vec![("clause", 4), ("bool_lin_le", 2), ("bool_lin_eq", 2), ("lin_eq", 2), ("lin_ne", 1)];
+            p.ncons = (5, 12);
+        }
+        2 => {
+            p.kinds = vec![("cumulativec", 3), ("bin_le", 2), ("bin_lt", 2), ("lin_le", 2), ("lin_eq", 1)];
+            p.lo = (0, 2);
+        }
+        _ => {}
+    }
+    gen_model(r, &p)
+}
+
+/// C16 family (a): small support, large magnitude. Domains of <= 3 values placed near powers of two
+/// up to the 32-bit limits, large coefficients / offsets / right-hand sides.
+pub fn gen_big(r: &mut SmallRng, kind: &str) -> Model {
+    const LIM: i64 = (1 << 31) - 1;
+    loop {
+        let nv = r.gen_range(2..=4);
+        let mut m = Model::default();
+        let bases: [i64; 12] =
+            [0, 1, 1 << 15, -(1 << 15), 1 << 16, 46340, 46341, 1 << 30, -(1 << 30), LIM - 3, -LIM + 1, 3];
+        for _ in 0..nv {
+            let lo = (bases[r.gen_range(0..bases.len())] + r.gen_range(-1..2)).clamp(-LIM, LIM);
+            let hi = (lo + r.gen_range(0..3)).min(LIM);
+            m.vars.push(Var { dom: (lo..=hi).collect(), kind: VarKind::Interval });
+        }
+        if r.gen_bool(0.3) {
+            m.vars.push(Var { dom: vec![0, 1], kind: VarKind::Bool });
+        }
+        let scales: [i64; 9] = [1, 1, 1, -1, 2, -3, 1000, 32768, 65536];
+        let offs: [i64; 6] = [0, 0, 0, 3, 1 << 16, -(1 << 30)];
+        let fits = |v: &View, m: &Model| {
+            let d = &m.vars[v.var];
+            let a = v.s as i128 * d.lo() as i128 + v.o as i128;
+            let b = v.s as i128 * d.hi() as i128 + v.o as i128;
+            // the view itself must stay inside the 32-bit range the API admits
+            a.abs() <= LIM as i128 && b.abs() <= LIM as i128 && (v.s as i128 * d.lo() as i128).abs() <= LIM as i128 && (v.s as i128 * d.hi() as i128).abs() <= LIM as i128
+        };
+        let mut vw = |r: &mut SmallRng, m: &Model| -> View {
+            for _ in 0..20 {
+                let var = r.gen_range(0..m.vars.len());
+                if m.vars[var].kind == VarKind::Bool && r.gen_bool(0.7) {
+                    continue;
+                }
+                let v = View { var, s: scales[r.gen_range(0..scales.len())] * if r.gen_bool(0.2) { -1 } else { 1 }, o: offs[r.gen_range(0..offs.len())] };
+                if fits(&v, m) {
+                    return v;
+                }
+            }
+            View::plain(0)
+        };
+        let rhs_c: [i64; 8] = [0, 5, 1 << 16, 1 << 30, -(1 << 30), LIM, -LIM, 2_000_000_000];
+        let rhs = (rhs_c[r.gen_range(0..rhs_c.len())] + r.gen_range(-2..3)).clamp(-LIM, LIM);
+        let n = r.gen_range(1..=3);
+        let c = match kind {
+            "lin_le" => Con::LinLe((0..n).map(|_| vw(r, &m)).collect(), rhs),
+            "lin_eq" => Con::LinEq((0..n).map(|_| vw(r, &m)).collect(), rhs),
+            "lin_ne" => Con::LinNe((0..n).map(|_| vw(r, &m)).collect(), rhs),
+            "plus" => Con::Plus(vw(r, &m), vw(r, &m), vw(r, &m)),
+            "times" => Con::Times(vw(r, &m), vw(r, &m), vw(r, &m)),
+            "div" => {
+                let d = vw(r, &m);
+                if m.vars[d.var].dom.iter().any(|x| d.s * x + d.o == 0) {
+                    continue;
+                }
+                Con::Div(vw(r, &m), d, vw(r, &m))
+            }
+            "abs" => Con::Abs(vw(r, &m), vw(r, &m)),
+            "max" => Con::Max((0..n).map(|_| vw(r, &m)).collect(), vw(r, &m)),
+            "min" => Con::Min((0..n).map(|_| vw(r, &m)).collect(), vw(r, &m)),
+            "element" => {
+                // index variable with a small non-negative domain, pairwise distinct variables
+                m.vars.push(Var { dom: (0..=r.gen_range(0..3)).collect(), kind: VarKind::Interval });
+                let iv = m.vars.len() - 1;
+                let mut pick: Vec<usize> = (0..iv).filter(|&i| m.vars[i].kind != VarKind::Bool).collect();
+                shuffle(r, &mut pick);
+                if pick.len() < 2 {
+                    continue;
+                }
+                let na = (pick.len() - 1).min(3);
+                Con::Elem(View::plain(iv), pick[1..=na].iter().map(|&v| View::plain(v)).collect(), View::plain(pick[0]))
+            }
+            "bin_le" => Con::BinLe(vw(r, &m), vw(r, &m)),
+            "bin_ne" => Con::BinNe(vw(r, &m), vw(r, &m)),
+            k => panic!("harness: no large-magnitude generator for {k}"),
+        };
+        let reif = if r.gen_range(0..5) == 0 { gen_reif(r, &m, &c, 1.0) } else { Reif::Plain };
+        m.cons.push((c, reif));
+        if r.gen_bool(0.3) {
+            let v = vw(r, &m);
+            m.cons.push((Con::LinNe(vec![v], rhs), Reif::Plain));
+        }
+        if m.space() <= 5_000.0 {
+            return m;
+        }
+    }
+}
